@@ -20,8 +20,9 @@ type Case struct {
 	Level string       `json:"level"` // "L1" (rib API) or "L2" (server, in-process streams)
 	H     hgen.History `json:"h"`
 	// L2 only
-	Batch []int `json:"batch,omitempty"` // sizes of the ModifyRequests the ops are packed into
-	Fatal int   `json:"fatal,omitempty"` // 1-based index of the op that carries no election id (0 = none)
+	Batch     []int `json:"batch,omitempty"`     // sizes of the ModifyRequests the ops are packed into
+	Fatal     int   `json:"fatal,omitempty"`     // 1-based index (among ops) of an op with a fatal election stamp (0 = none)
+	FatalKind int   `json:"fatalkind,omitempty"` // 1 = no election id, 2 = no entry
 }
 
 func setup() {
